@@ -23,7 +23,12 @@ def crafted(z, pair):
     raw = bytes.fromhex(empty)
     trailer = raw[4:-4]           # footer ++ le32(len)
     out = []
-    for tag, payload in (("embedded-footer-no-magic", trailer), ("embedded-complete-trailer", trailer + b"PAR1")):
+    footer = raw[4:-8]
+    filler = bytes((i * 11 + 3) % 251 for i in range(5000))
+    far = footer + filler + zoolib.le(len(footer) + len(filler), 4) + b"abcd"     # a length field pointing far back, no magic
+    far_magic = footer + filler + zoolib.le(len(footer) + len(filler), 4)          # same, and the next bytes in the file decide
+    for tag, payload in (("embedded-footer-no-magic", trailer), ("embedded-complete-trailer", trailer + b"PAR1"),
+                         ("embedded-footer-far-length-no-magic", far), ("embedded-footer-far-length", far_magic)):
         rec = ("struct", [("leaf", zoolib.le(7, 8)), ("some", ("leaf", payload)), ("list", [])])
         rec2 = ("struct", [("leaf", zoolib.le(8, 8)), ("nil",), ("list", [("leaf", zoolib.le(1, 4))])])
         out.append(filelevel.Case(z, 2, 0, [("a", rec), ("a", rec2), ("w",), ("c",)], tag))
